@@ -4,28 +4,94 @@ use crate::ctx::{verif_root, Ctx};
 use serde_json::json;
 use std::process::Command;
 
-/// Run `runs` executions of `target`. Returns the crashing input, if any.
+/// Run `runs` executions of `target` in each of `workers()` independent libFuzzer processes (seeds
+/// `VERIF_SEED*64 + w`, own corpus and artifact directories). Returns the first crashing input, if any.
 pub fn campaign(ctx: &mut Ctx, target: &str, runs: u64, seeds: &[Vec<u8>], max_len: usize) -> Option<Vec<u8>> {
     let root = verif_root();
-    let tag = format!("{}-{}", target, std::process::id());
+    // build once, so that the workers do not queue behind cargo's build lock
+    let build = Command::new("cargo")
+        .args(["+nightly", "fuzz", "build", target])
+        .current_dir(root.join("harness/fuzz"))
+        .env("CARGO_NET_OFFLINE", "true")
+        .output();
+    match build {
+        Ok(o) if o.status.success() => {}
+        Ok(o) => {
+            let text = String::from_utf8_lossy(&o.stderr).to_string();
+            let tail: String = text.lines().rev().take(6).collect::<Vec<_>>().into_iter().rev().collect::<Vec<_>>().join(" | ");
+            ctx.inconclusive(&format!("cargo fuzz build {} failed: {}", target, tail));
+            return None;
+        }
+        Err(e) => {
+            ctx.inconclusive(&format!("cannot run cargo fuzz: {}", e));
+            return None;
+        }
+    }
+    let nw = workers();
+    let base_seed = ctx.seed.max(1);
+    let results: Vec<One> = std::thread::scope(|sc| {
+        let hs: Vec<_> = (0..nw)
+            .map(|w| {
+                let root = root.clone();
+                sc.spawn(move || one(&root, target, w, runs, base_seed * 64 + w as u64, seeds, max_len))
+            })
+            .collect();
+        hs.into_iter().map(|h| h.join().unwrap_or_else(|_| One { done: None, crash: None, ok: false, tail: "worker thread panicked".into() })).collect()
+    });
+    let mut crash = None;
+    let mut executed = 0u64;
+    let mut incomplete = vec![];
+    for (w, r) in results.iter().enumerate() {
+        executed += r.done.unwrap_or(0);
+        if crash.is_none() {
+            crash = r.crash.clone();
+        }
+        if r.crash.is_none() && (!r.ok || r.done.is_none()) {
+            incomplete.push(format!("worker {}: {}", w, r.tail));
+        }
+    }
+    ctx.evaluations += executed;
+    ctx.class_n(&format!("libfuzzer:{}:executions", target), executed);
+    ctx.section(
+        &format!("libfuzzer_{}", target),
+        json!({"processes": nw, "runs_requested_per_process": runs, "runs_done": executed, "seed_inputs": seeds.len(),
+               "crash": crash.is_some(), "max_len": max_len, "seeds": (0..nw).map(|w| base_seed * 64 + w as u64).collect::<Vec<_>>()}),
+    );
+    if crash.is_none() && !incomplete.is_empty() {
+        ctx.inconclusive(&format!("libFuzzer campaign {} did not complete: {}", target, incomplete.join(" || ")));
+    }
+    crash
+}
+
+fn workers() -> usize {
+    std::env::var("VERIF_FUZZ_WORKERS").ok().and_then(|v| v.parse().ok()).unwrap_or_else(|| crate::ctx::ncpu().clamp(1, 12))
+}
+
+struct One {
+    done: Option<u64>,
+    crash: Option<Vec<u8>>,
+    ok: bool,
+    tail: String,
+}
+
+fn one(root: &std::path::Path, target: &str, w: usize, runs: u64, seed: u64, seeds: &[Vec<u8>], max_len: usize) -> One {
+    let tag = format!("{}-{}-{}", target, std::process::id(), w);
     let corpus = root.join(".cache/fuzz-corpus").join(&tag);
     let artifacts = root.join(".cache/fuzz-artifacts").join(&tag);
     let _ = std::fs::remove_dir_all(&corpus);
     let _ = std::fs::remove_dir_all(&artifacts);
     if std::fs::create_dir_all(&corpus).is_err() || std::fs::create_dir_all(&artifacts).is_err() {
-        ctx.inconclusive("cannot create fuzz directories");
-        return None;
+        return One { done: None, crash: None, ok: false, tail: "cannot create fuzz directories".into() };
     }
     for (i, s) in seeds.iter().enumerate() {
         let _ = std::fs::write(corpus.join(format!("seed-{:04}", i)), s);
     }
-    let t0 = std::time::Instant::now();
     let out = Command::new("cargo")
         .args(["+nightly", "fuzz", "run", target])
         .arg(&corpus)
         .arg("--")
         .arg(format!("-runs={}", runs))
-        .arg(format!("-seed={}", ctx.seed.max(1)))
+        .arg(format!("-seed={}", seed))
         .arg("-len_control=0")
         .arg(format!("-max_len={}", max_len))
         .arg(format!("-artifact_prefix={}/", artifacts.display()))
@@ -34,10 +100,7 @@ pub fn campaign(ctx: &mut Ctx, target: &str, runs: u64, seeds: &[Vec<u8>], max_l
         .output();
     let out = match out {
         Ok(o) => o,
-        Err(e) => {
-            ctx.inconclusive(&format!("cannot run cargo fuzz: {}", e));
-            return None;
-        }
+        Err(e) => return One { done: None, crash: None, ok: false, tail: format!("cannot run cargo fuzz: {}", e) },
     };
     let text = String::from_utf8_lossy(&out.stderr).to_string();
     let done = text
@@ -53,18 +116,8 @@ pub fn campaign(ctx: &mut Ctx, target: &str, runs: u64, seeds: &[Vec<u8>], max_l
             }
         }
     }
-    let executed = done.unwrap_or(0);
-    ctx.evaluations += executed;
-    ctx.class_n(&format!("libfuzzer:{}:executions", target), executed);
-    ctx.section(
-        &format!("libfuzzer_{}", target),
-        json!({"runs_requested": runs, "runs_done": done, "seed_inputs": seeds.len(), "seconds": t0.elapsed().as_secs_f64(), "crash": crash.is_some(), "max_len": max_len}),
-    );
-    if crash.is_none() && (!out.status.success() || done.is_none()) {
-        let tail: String = text.lines().rev().take(6).collect::<Vec<_>>().into_iter().rev().collect::<Vec<_>>().join(" | ");
-        ctx.inconclusive(&format!("libFuzzer campaign {} did not complete: {}", target, tail));
-    }
+    let tail: String = text.lines().rev().take(6).collect::<Vec<_>>().into_iter().rev().collect::<Vec<_>>().join(" | ");
     let _ = std::fs::remove_dir_all(&corpus);
     let _ = std::fs::remove_dir_all(&artifacts);
-    crash
+    One { done, crash, ok: out.status.success(), tail }
 }
